@@ -964,13 +964,10 @@ impl Gen {
                 used.push(l.clone());
             }
             env.kill_pending();
-            // (open finding: fields of a spread tuple do not receive the flow — only `~` reaches it)
-            let (ts, ty) = if g.chance(1, 3) && !tin.top_fn() {
+            let (ts, ty) = if g.chance(1, 4) && !tin.top_fn() {
                 (vec![Term::Access(Src::Ripple, vec![])], tin.clone())
             } else {
-                g.fresh_start = true;
                 let (ts, ty, _) = g.gen_term(env, tin, d.saturating_sub(1), false, cx);
-                g.fresh_start = false;
                 (ts, ty)
             };
             env.kill_pending();
